@@ -364,8 +364,12 @@ GroupScan(gs, g, now, dryAll, F, obs) ==
                    \/ (MaxPendMem(gs) > 0 /\ MaxPendMem(gs) > MaxFreeMem(gs, unt))
       aged == /\ gs.cfg.maxAge > 0 /\ nUnt = minEff /\ nUnt # 0 /\ Len(ts) = 0
               /\ \E n \in SeqToSet(unt) : now - view[n].created > gs.cfg.maxAge
-      ndOK(x) == IF starve \/ aged THEN \E a \in admitted2 : x = Max2(a, 1) ELSE x \in admitted2
-      nd == raw
+      ndSet == IF starve \/ aged THEN {Max2(a, 1) : a \in admitted2} ELSE admitted2
+      ndOK(x) == x \in ndSet
+      \* when the scan ended with the fatal not-in-group error the decision is not observable (the remembered delta
+      \* is 0); every non-positive decision leads to the same outcome, a positive one never reaches the grace reaper
+      nd == IF obs.ndAny THEN (IF \E x \in ndSet : x <= 0 THEN CHOOSE x \in ndSet : x <= 0 ELSE CHOOSE x \in ndSet : TRUE)
+            ELSE raw
       r3 == [r2 EXCEPT !.lookReq = lookReq, !.lookMay = lookMay, !.valid = ndOK(nd), !.nd = nd]
       \* :413-421 force reaper; its error is only logged
       fr == DeleteBatch(ForceCands(gs, dry, fs), g, F, r3)
